@@ -763,9 +763,152 @@ pub fn run(r: &Run) {
     r.assume("level 1 only: parse_message + validate_message; the RIB read-back after PeerSession::rx_msg is exercised by C09's inbound checks");
     r.prop("corrupted-updates", r.tier.pick(150_000, 3_000_000), || arb_case(3), check);
     r.prop("clean-updates", r.tier.pick(30_000, 500_000), || arb_case(0), check);
+    r.assume(SESSION_RULE);
+    r.prop("session-rib", r.tier.pick(4_000, 150_000), || arb_case(3), check_session);
 }
 
-pub fn replay(_sub: &str, case: &Value) -> Result<CheckResult, String> {
+pub fn replay(sub: &str, case: &Value) -> Result<CheckResult, String> {
     let c: Case = decode_case(case)?;
+    if sub == "session-rib" {
+        return Ok(check_session(&c));
+    }
     Ok(check(&c))
+}
+
+// ---------------------------------------------------------------------------
+// session level: the same UPDATE bytes over a real session into the daemon's RIB
+// (PeerSession::run_select's receive buffer, rx_msg, rx_update, TableManager). The RIB is
+// seeded beforehand, through the same session, with clean routes for every prefix the
+// UPDATE mentions, so that both "not installed" and "withdrawn" are observable.
+// ---------------------------------------------------------------------------
+
+pub const SESSION_RULE: &str = "session-rib: the same cases over a real loopback session (eBGP or iBGP neighbour, 2- or 4-octet AS, capabilities = IPv4 + the case's families) into the daemon's RIB. Before the UPDATE under test the peer announces, with clean attributes, every prefix the UPDATE mentions; \
+after it (once the daemon has read it): the session is still up unless the reference allows a reset; every prefix the UPDATE withdraws is gone from the peer's Adj-RIB-In; when treat-as-withdraw applies, every prefix it announces is gone (the malformed announcement neither stays nor replaces the earlier route silently); prefixes it does not mention are still there. \
+non-trivial := as above";
+
+pub fn check_session(c: &Case) -> CheckResult {
+    let rt = tokio::runtime::Builder::new_current_thread().enable_all().event_interval(1).build().map_err(|e| Failure::new("harness", e.to_string()))?;
+    rt.block_on(session(c))
+}
+
+async fn session(c: &Case) -> CheckResult {
+    use crate::event::verif::{NeighborCfg, adj_in};
+    use crate::props::wirepeer::WirePeer;
+    use std::net::{IpAddr, Ipv4Addr};
+    use std::sync::Arc;
+
+    let b = build(c);
+    if b.bytes.len() > 4096 {
+        return Ok(CaseInfo::trivial().class("too-big"));
+    }
+    let fam = fam_of(c.fam);
+    let ufam = fam_of(c.unreach_fam.unwrap_or(c.fam));
+    let peer_as: u32 = if c.ebgp { 65100 } else { 65000 };
+    let src = IpAddr::V4(Ipv4Addr::new(127, 0, 5, 2));
+    let cfg = NeighborCfg { addr: src, remote_asn: peer_as, local_asn: 0, rs_client: false, rr_client: false, cluster_id: None, admin_down: false, holdtime: 90, families: ALL_FAMILIES.iter().map(|f| (*f, 0)).collect(), prefix_limit: None, gr: None, llgr: None };
+    let mut p = WirePeer::new(65000, cfg).await?;
+    p.connect().await?;
+    let mut caps = vec![Capability::MultiProtocol(Family::IPV4)];
+    for f in [fam, ufam] {
+        if !caps.contains(&Capability::MultiProtocol(f)) {
+            caps.push(Capability::MultiProtocol(f));
+        }
+    }
+    if !c.two_byte_as {
+        caps.push(Capability::FourOctetAsNumber(peer_as));
+    }
+    if !p.establish(peer_as, 0, 0x0a00_0002, caps.clone()).await? {
+        return Err(Failure::new("harness", "the session did not establish".to_string()));
+    }
+    let mut local = caps.clone();
+    if c.two_byte_as {
+        local.push(Capability::FourOctetAsNumber(65000));
+    }
+    let mut codec = PeerCodec::negotiate(&caps, &local);
+
+    // ---- seed: clean routes for every prefix the UPDATE mentions, plus one it does not ----
+    let announced_legacy: Vec<bgp::Nlri> = c.nlri.iter().map(v4_nlri).collect();
+    let withdrawn_legacy: Vec<bgp::Nlri> = c.withdrawn.iter().map(v4_nlri).collect();
+    let announced_mp: Vec<bgp::Nlri> = c.mp_reach.as_ref().map(|(f, n)| (0..*n as u32).map(|i| nth_entry(f, i).build()).collect()).unwrap_or_default();
+    let withdrawn_mp: Vec<bgp::Nlri> = c.mp_unreach.as_ref().map(|(f, n)| (0..*n as u32).map(|i| nth_entry(f, 100 + i).build()).collect()).unwrap_or_default();
+    let bystander = v4(203, 0, 113, 0, 24);
+    let mut seed_attr = AttrSpec { origin: Some(0), as_path: Some(if c.ebgp { vec![Seg { t: 2, n: 1, base: peer_as, asns: vec![] }] } else { vec![] }), ..Default::default() };
+    if !c.ebgp {
+        seed_attr.local_pref = Some(100);
+    }
+    let seed_attr = Arc::new(seed_attr.build());
+    let seed = |family: Family, nets: Vec<bgp::Nlri>| -> Option<Message> {
+        if nets.is_empty() {
+            return None;
+        }
+        let nexthop = if family.afi() == Family::AFI_IP6 { bgp::Nexthop::V6("2001:db8::9".parse().unwrap()) } else { bgp::Nexthop::V4(Ipv4Addr::new(192, 0, 2, 9)) };
+        Some(Message::Update(Update::Reach { family, entries: nets.into_iter().map(|nlri| bgp::PathNlri { path_id: 0, nlri }).collect(), nexthop: Some(nexthop), attr: seed_attr.clone() }))
+    };
+    let mut v4seed: Vec<bgp::Nlri> = announced_legacy.iter().chain(withdrawn_legacy.iter()).cloned().collect();
+    v4seed.push(bystander.clone());
+    v4seed.dedup();
+    for m in [seed(Family::IPV4, v4seed), seed(fam, announced_mp.clone()), seed(ufam, withdrawn_mp.clone())].into_iter().flatten() {
+        // a family the repository's encoder does not take is simply not seeded
+        let _ = p.send_msg(&mut codec, &m).await;
+        if p.is_closed() {
+            return Ok(CaseInfo::trivial().class("session/seed-refused"));
+        }
+    }
+    let fams: Vec<Family> = {
+        let mut v = vec![Family::IPV4, fam, ufam];
+        v.sort_by_key(|f| (f.afi(), f.safi()));
+        v.dedup();
+        v
+    };
+    let rib = |rig: &crate::event::verif::AdmitRig| -> BTreeSet<(u32, String)> { adj_in(&rig.tables, src, &fams).into_iter().map(|(f, n, _)| (((f.afi() as u32) << 16) | f.safi() as u32, n)).collect() };
+    let key = |f: Family, n: &bgp::Nlri| (((f.afi() as u32) << 16) | f.safi() as u32, format!("{n:?}"));
+    let pre = rib(&p.rig);
+    if !pre.contains(&key(Family::IPV4, &bystander)) {
+        return Err(Failure::new("harness", "the clean seed UPDATE was not installed".to_string()));
+    }
+
+    // ---- the UPDATE under test ------------------------------------------------------
+    p.send(&b.bytes, 1, &[]).await?;
+    let kinds = b.kinds.join("+");
+    let wit = |f: Failure| f.with("kinds", kinds.clone()).with("ebgp", c.ebgp).with("family", family_name(fam));
+    let alive = !p.is_closed() && p.is_established().await;
+    let nt = b.n_corruptions >= 2 || (b.n_corruptions >= 1 && (!c.withdrawn.is_empty() || !withdrawn_mp.is_empty())) || (c.mp_reach.is_some() && fam != Family::IPV4);
+    let mut info = CaseInfo::nt(nt).class_if(b.taw, "session/expect/treat-as-withdraw").class_if(b.n_corruptions == 0, "session/expect/clean");
+    if !alive {
+        if b.reset_allowed || b.mp_relaxed {
+            return Ok(info.class("session/reset-allowed"));
+        }
+        return Err(wit(Failure::new("needless-reset", format!("the session was reset (NOTIFICATIONs sent: {:?}) although the NLRI can be located and parsed (corruptions: {kinds})", p.notifications())).with("notification", format!("{:?}", p.notifications().first()))));
+    }
+    let post = rib(&p.rig);
+    // (1) withdrawals take effect
+    if !b.reset_allowed {
+        for w in &withdrawn_legacy {
+            if post.contains(&key(Family::IPV4, w)) {
+                return Err(wit(Failure::new("withdrawal-lost", format!("{w}, withdrawn by the UPDATE, is still in the peer's Adj-RIB-In (corruptions: {kinds})"))));
+            }
+        }
+        if !b.mp_relaxed && !matches!(ufam, Family::IPV4_MPLS | Family::IPV6_MPLS) {
+            for w in &withdrawn_mp {
+                if post.contains(&key(ufam, w)) {
+                    return Err(wit(Failure::new("withdrawal-lost", format!("{w} ({}), withdrawn by the UPDATE's MP_UNREACH, is still in the peer's Adj-RIB-In (corruptions: {kinds})", family_name(ufam)))));
+                }
+            }
+        }
+    }
+    // (2) a malformed announcement neither installs nor leaves the earlier route
+    if b.taw {
+        for a in announced_legacy.iter().map(|n| (Family::IPV4, n)).chain(if b.mp_relaxed { [].iter() } else { announced_mp.iter() }.map(|n| (fam, n))) {
+            if post.contains(&key(a.0, a.1)) {
+                return Err(wit(Failure::new("faulty-route-kept", format!("{} is in the peer's Adj-RIB-In after an UPDATE that requires treat-as-withdraw (corruptions: {kinds})", a.1)).with("corrupted_codes", format!("{:?}", b.corrupted_codes))));
+            }
+        }
+        info = info.class("session/treat-as-withdraw-observed");
+    }
+    // (3) what the UPDATE does not mention is untouched
+    if !post.contains(&key(Family::IPV4, &bystander)) {
+        return Err(wit(Failure::new("bystander-lost", format!("{bystander}, which the UPDATE does not mention, disappeared from the peer's Adj-RIB-In (corruptions: {kinds})"))));
+    }
+    let _ = pre;
+    Ok(info)
 }
